@@ -14,7 +14,7 @@ def run(c):
     c.mechanism = {"no read of never-written memory in ruge_stuben::connect": "M (RsConnectModel, poison value)",
                    "degenerate configurations enumerated": "M (Hierarchy.tla) + replay",
                    "outcome independent of prior heap contents / allocation history": "O (operator new replaced, 4 fills + dirty prelude)",
-                   "no out-of-bounds / use-after-free / leak / UB": "O (ASan+UBSan+LSan exit status)",
+                   "no out-of-bounds / use-after-free / leak / UB": "O (ASan+UBSan+LSan exit status; incl. 9 hand-over histories of borrowed / owned crs per matrix)",
                    "failure = exception or truthfully reported residual": "V (outcome class + long-double residual)"}
     c.assumptions = ["operator new / new[] replacement reaches every allocation amgcl makes (it uses new[] and std containers)",
                      "sanitizers see single-threaded runs (OMP_NUM_THREADS=1)",
@@ -67,6 +67,12 @@ def run(c):
                  sig={"stage": "sanitizer", "matrix": "prm"})
     res = c.tlc_trace("C10Trace", t, label="parameters/sanitized")
     c.judge(res, "non-default parameters (sanitizer build)", sigfn=psig, stage="sanitizer")
+    # ownership histories of the builtin crs (borrowed via zero_copy / owned; copy and move construction and assignment), sanitized
+    t = c.record(san, ["own", "all"], out=c.path("own-san.ndjson"), timeout=900,
+                 env={"ASAN_OPTIONS": "detect_leaks=1:abort_on_error=0:exitcode=134", "UBSAN_OPTIONS": "halt_on_error=1:exitcode=134"},
+                 sig={"stage": "sanitizer", "matrix": "own"})
+    res = c.tlc_trace("C10Trace", t, label="ownership/sanitized")
+    c.judge(res, "ownership history of a matrix (sanitizer build)", sigfn=lambda rec, cl: {"matrix": rec.get("m"), "history": rec.get("h")}, stage="sanitizer")
     # stack contents + a team smaller than omp_get_max_threads(): the library called from inside the
     # caller's parallel region, 3 threads configured, after four different stack fills
     t = c.record(plain, ["stack", "all"], out=c.path("stack.ndjson"), timeout=1800, env={"OMP_NUM_THREADS": 3})
